@@ -3,7 +3,6 @@ package conan
 import (
 	"fmt"
 	"regexp"
-	"strconv"
 	"strings"
 )
 
@@ -138,7 +137,11 @@ func compareVersionParts(a, b []string) int {
 
 		// Compare parts using natural ordering
 		if aPart != bPart {
-			return naturalCompare(aPart, bPart)
+			// Parts that differ only in spelling (e.g. "01" and "1") are equal;
+			// keep comparing the remaining parts in that case.
+			if result := naturalCompare(aPart, bPart); result != 0 {
+				return result
+			}
 		}
 	}
 
@@ -191,10 +194,8 @@ func comparePrerelease(a, b string) int {
 
 		if aIsNum && bIsNum {
 			// Both are numeric, compare numerically
-			aNum, _ := strconv.Atoi(aPart)
-			bNum, _ := strconv.Atoi(bPart)
-			if aNum != bNum {
-				return compareInt(aNum, bNum)
+			if result := compareNumericStrings(aPart, bPart); result != 0 {
+				return result
 			}
 		} else if aIsNum {
 			// Numeric identifiers always have lower precedence than non-numeric
@@ -227,10 +228,8 @@ func naturalCompare(a, b string) int {
 
 	// Compare numeric parts if both exist
 	if aNumStr != "" && bNumStr != "" {
-		aNum, _ := strconv.Atoi(aNumStr)
-		bNum, _ := strconv.Atoi(bNumStr)
-		if aNum != bNum {
-			return compareInt(aNum, bNum)
+		if result := compareNumericStrings(aNumStr, bNumStr); result != 0 {
+			return result
 		}
 	} else if aNumStr != "" { // a has number, b doesn't
 		return -1
@@ -261,6 +260,18 @@ func extractLeadingNumber(s string) string {
 	}
 	// Entire string is numeric
 	return s
+}
+
+// compareNumericStrings compares two strings of decimal digits as integers of
+// any length (leading zeros ignored), so that numbers beyond the int range do
+// not collapse into one value.
+func compareNumericStrings(a, b string) int {
+	a = strings.TrimLeft(a, "0")
+	b = strings.TrimLeft(b, "0")
+	if len(a) != len(b) {
+		return compareInt(len(a), len(b))
+	}
+	return strings.Compare(a, b)
 }
 
 // compareInt returns -1 if a < b, 0 if a == b, 1 if a > b
